@@ -14,7 +14,9 @@ reference is gone). Whether the default arrives therefore depends on the order o
 Family (dimension → values):
   kind × definition (integer / string / constrained string / nullable integer / boolean false / number / alias of a definition /
   array / dict) × collapse_root_models × reuse_model × the member's own default (none / a value / null) × where the definition
-  stands (the referring schema is the document root / before / after the referring schema) × a second member referring to the
+  stands (the referring schema is the document root / before / after the referring schema / in another file of the input
+  directory, under its `definitions` or as its root schema — modular output, the emitted package is imported / in a file outside
+  the input) × a second member referring to the
   same definition × a twin definition (identical text, another name) referred to by a member of its own × spelling options.
 
 Oracle (the property, per member that is not required): omitted → reads its own default when it has one, else the
@@ -60,6 +62,9 @@ SCALAR_DEFS = ["int", "str", "cstr", "nint", "false", "zero", "num", "alias"]
 CONTAINER_DEFS = ["arr", "dict"]
 OWN = ["none", "value", "null"]
 PLACES = ["root", "before", "after"]
+# the definition lives in another file: directory input and modular output (under `definitions` of the other file / as the
+# other file's root schema), or one input file referring to a file outside the input
+FILE_PLACES = ["file", "file-root", "external"]
 OPT_NAMES = {"fc": "field_constraints", "an": "use_annotated", "kw": "use_default_kwarg", "uo": "use_union_operator",
              "us": "use_standard_collections", "sn": "strict_nullable", "ko": "keep_model_order"}
 
@@ -69,6 +74,8 @@ def mk_case(kind, deftype, collapse, reuse, own="none", place="root", second=Fal
     opts.update(bits or {})
     if opts["an"]:
         opts["fc"] = True
+    if place == "file-root":
+        twin = False  # the other file's root schema is the one definition
     return {"kind": kind, "deftype": deftype, "collapse": bool(collapse), "reuse": bool(reuse), "own": own, "place": place,
             "second": bool(second), "twin": bool(twin), "opts": opts}
 
@@ -93,11 +100,18 @@ def members_of(c: dict) -> list[dict]:
     return ms
 
 
+def ref_string(c: dict, name: str) -> str:
+    if c["place"] in PLACES:
+        return f"#/definitions/{name}"
+    return "z_t.json" if c["place"] == "file-root" else f"z_t.json#/definitions/{name}"
+
+
 def build_doc(c: dict) -> dict:
+    """the document — for the file places {"files": {name: document}, "entry": name | None (None: the directory is the input)}"""
     schema, _dv, ov = DEFS[c["deftype"]]
     props: dict = {}
     for m in members_of(c):
-        s: dict = {"$ref": f"#/definitions/{m['ref']}"}
+        s: dict = {"$ref": ref_string(c, m["ref"])}
         if m["own"] == "value":
             s["default"] = ov
         elif m["own"] == "null":
@@ -110,6 +124,14 @@ def build_doc(c: dict) -> dict:
         defs["T2"] = json.loads(json.dumps(schema))
     if c["deftype"] == "alias":
         defs["Inner"] = {"type": "integer"}
+    if c["place"] in FILE_PLACES:
+        if c["place"] == "file-root":
+            tdoc = {"title": "T", **defs.pop("T")}
+            if defs:
+                tdoc["definitions"] = defs
+        else:
+            tdoc = {"title": "Other", "type": "object", "definitions": defs}
+        return {"files": {"a_m.json": {"title": "M", **obj}, "z_t.json": tdoc}, "entry": "a_m.json" if c["place"] == "external" else None}
     if c["place"] == "root":
         return {"title": "M", **obj, "definitions": defs}
     if c["place"] == "before":
@@ -194,7 +216,7 @@ def member_lines(code: str, names: list[str]) -> dict[str, str]:
     return out
 
 
-def observe(code: str, c: dict) -> dict:
+def observe(code: str, c: dict, loader=None) -> dict:
     """per member: {"omitted": canonical JSON of the value an instance without it reads | "rejected" | "error:…",
     "shared": bool} — plus "loads"."""
     names = [m["name"] for m in members_of(c)]
@@ -212,8 +234,12 @@ def observe(code: str, c: dict) -> dict:
                         res["members"][st.target.id] = {"omitted": "rejected" if tag == "required" else (canon(val) if tag == "value" else f"other:{val}"),
                                                         "shared": False}
         return res
+    unload = e2e.unload
     try:
-        mod = e2e.load_module(code, c["kind"])
+        if loader is not None:
+            mod, unload = loader()
+        else:
+            mod = e2e.load_module(code, c["kind"])
     except BaseException as e:  # noqa: BLE001
         return {"loads": f"error:{type(e).__name__}:{str(e)[:160]}", "members": {}}
     try:
@@ -231,17 +257,34 @@ def observe(code: str, c: dict) -> dict:
                 rejected = type(e).__name__ in ("ValidationError", "TypeError") and (name in msg or "missing" in msg)
                 res["members"][name] = {"omitted": "rejected" if rejected else f"error:{type(e).__name__}:{msg[:120]}", "shared": False}
     finally:
-        e2e.unload(mod)
+        unload(mod)
     return res
+
+
+def norm_error(msg: str) -> str:
+    """an error text without the scratch module names, cut at the first line / sentence"""
+    msg = re.sub(r"dcgverif_(gen|pkg)_\d+_\d+\.", "", msg).replace("z_t.", "").replace("a_m.", "")
+    return re.split(r"[\n;]", msg, maxsplit=1)[0][:70]
 
 
 def run_case(c: dict) -> dict:
     doc = build_doc(c)
-    r = e2e.run_generate(doc, input_file_type="jsonschema", model=c["kind"], opts=gen_opts(c))
+    loader = None
+    if c["place"] in FILE_PLACES:
+        from . import c05_refs
+
+        r = c05_refs.run_generate_files(doc["files"], doc["entry"], input_file_type="jsonschema", model=c["kind"], opts=gen_opts(c))
+    else:
+        r = e2e.run_generate(doc, input_file_type="jsonschema", model=c["kind"], opts=gen_opts(c))
     if not r.ok:
         return {"error": f"{r.error_type}: {r.error_msg[:200]}", "hang": r.hang, "document": doc}
-    code = r.code
-    obs = observe(code, c)
+    if "out.py" in r.files or c["place"] not in FILE_PLACES:
+        code = r.code
+    else:
+        code = r.files.get("a_m.py", "")
+        files = dict(r.files)
+        loader = lambda: c05_refs.load_package(files, c["kind"], "a_m")  # noqa: E731
+    obs = observe(code, c, loader)
     return {"document": doc, "obs": obs, "lines": member_lines(code, [m["name"] for m in members_of(c)]), "code": code}
 
 
@@ -333,7 +376,7 @@ def evaluate(ck: Check, camps: dict, c: dict, r: dict, model: list[str] | None, 
         return fails
     obs = r["obs"]
     if obs["loads"] != "ok":
-        err = re.sub(r"dcgverif_gen_\d+_\d+\.", "", obs["loads"])[len("error:"):][:60]
+        err = norm_error(obs["loads"][len("error:"):])
         cl = {"clause": "class_creation", "kind": tag, "mechanism": "module_does_not_load", "error": err, "definition": c["deftype"],
               "reuse_model": c["reuse"], "collapse_root_models": c["collapse"], "twin_definition": c["twin"], "model_predicts": False}
         fails.append(cl)
@@ -359,6 +402,17 @@ def evaluate(ck: Check, camps: dict, c: dict, r: dict, model: list[str] | None, 
             fails.append(cl)
             if record:
                 ck.fail(cl, {**inp, "member": m["name"], "code": r["code"][:1500]}, "class M has no such member", "every property is a member")
+            continue
+        if o["omitted"].startswith("error:"):
+            # the class cannot be instantiated at all (an annotation or a default expression names something the module does not bind)
+            cl = {"clause": "class_creation", "kind": tag, "mechanism": "class_not_usable", "error": norm_error(o["omitted"][len("error:"):]),
+                  "definition": c["deftype"], "reuse_model": c["reuse"], "collapse_root_models": c["collapse"], "twin_definition": c["twin"],
+                  "modular": c["place"] in ("file", "file-root"), "model_predicts": False}
+            if cl not in fails:
+                fails.append(cl)
+                if record:
+                    ck.fail(cl, {**inp, "member": m["name"], "emitted": r["lines"].get(m["name"]), "code": r["code"][:1500]},
+                            f"M() raises {o['omitted'][len('error:'):][:200]}", "the generated class can be instantiated with its optional members omitted")
             continue
         # --- model tie (scalar definitions): which default the field ends with
         predicts_loss = False
@@ -443,10 +497,12 @@ def shape_block(kinds=None) -> list[dict]:
     for kind in kinds or KINDS:
         for dt in DEFS:
             for collapse, reuse in itertools.product((False, True), repeat=2):
-                for place in PLACES:
+                for place in PLACES + FILE_PLACES:
                     for second, twin in itertools.product((False, True), repeat=2):
                         if place == "root" and not second and not twin:
                             continue  # in the core block
+                        if place == "file-root" and twin:
+                            continue
                         out.append(mk_case(kind, dt, collapse, reuse, "none", place, second, twin))
     return out
 
@@ -456,7 +512,7 @@ def random_cases(ck: Check, n: int) -> list[dict]:
     out = []
     for _ in range(n):
         bits = {t: rng.chance(1, 4) for t in OPT_NAMES}
-        out.append(mk_case(rng.choice(KINDS), rng.choice(list(DEFS)), rng.chance(2, 3), rng.chance(1, 2), rng.choice(OWN), rng.choice(PLACES),
+        out.append(mk_case(rng.choice(KINDS), rng.choice(list(DEFS)), rng.chance(2, 3), rng.chance(1, 2), rng.choice(OWN), rng.choice(PLACES + FILE_PLACES),
                            rng.chance(1, 2), rng.chance(1, 3), bits))
     return out
 
